@@ -154,7 +154,6 @@ GENERIC = [
     Rule(r'(\w+(?:(?:\.|->)\w+)*)\.buffer\.empty\(\)', r'(\1.bufsz == 0)', name='buffer.empty()'),
     Rule(r'(\w+(?:(?:\.|->)\w+)*)\.ok_to_drop\(\)', r'packet_ok_to_drop(&\1)', name='ok_to_drop()'),
     # ---- misc
-    Rule(r'\bmake_malloc\s*\(', '(', name='make_malloc'),
     Rule(r'\baux::packet\s+(\w+)\s*;', r'struct packet \1 = PACKET_INIT;', name='packet decl'),
     Rule(r'\b(?:aux::)?packet\s+const\s*&\s*(\w+)\s*=', r'const struct packet \1 =', name='const packet ref local (by-value copy)'),
     Rule(r'\baux::packet\b(\s+const)?\s*&', r'struct packet *', name='packet ref'),
@@ -202,11 +201,13 @@ def lower_std_move(text, fn_slots_re):
     return rewrite_calls(text, r'\bstd::move\s*\(', fn)
 
 
+MAKE_MALLOC = CallRule(r'(?:\baux::)?\bmake_malloc', {1: '$1'}, name='make_malloc(x) -> x')
+
 # closures that own their handler: post(ctx, make_malloc(std::bind(std::move(H), args...)))
 PRE_IDIOMS = [
-    Rule(r'\bpost\s*\(\s*[^,;]+?,\s*make_malloc\s*\(\s*std::bind\s*\(\s*std::move\s*\(\s*([\w.\->]+)\s*\)\s*,\s*([^,();]+?)\s*\)\s*\)\s*\)',
+    Rule(r'\bpost\s*\(\s*[^,;]+?,\s*std::bind\s*\(\s*std::move\s*\(\s*([\w.\->]+)\s*\)\s*,\s*([^,();]+?)\s*\)\s*\)',
          r'post_owned(fn_move(&\1), \2, 0)', name='post-owned-1'),
-    Rule(r'\bpost\s*\(\s*[^,;]+?,\s*make_malloc\s*\(\s*std::bind\s*\(\s*std::move\s*\(\s*([\w.\->]+)\s*\)\s*,\s*([^,();]+?)\s*,\s*([^,();]+?)\s*\)\s*\)\s*\)',
+    Rule(r'\bpost\s*\(\s*[^,;]+?,\s*std::bind\s*\(\s*std::move\s*\(\s*([\w.\->]+)\s*\)\s*,\s*([^,();]+?)\s*,\s*([^,();]+?)\s*\)\s*\)',
          r'post_owned(fn_move(&\1), \2, \3)', name='post-owned-2'),
 ]
 
